@@ -30,6 +30,10 @@ func dispSpec(withInit bool) kit.Spec {
 		// disposable concrete types registered under interface types that have no Close method
 		{ID: 8, Life: "transient", Err: true, Outs: []kit.Out{{T: "D0"}}, As: []string{"IA"}},
 		{ID: 9, Life: "scoped", Err: true, Outs: []kit.Out{{T: "IB", Conc: "D1"}}, Deps: []kit.Dep{{T: "IA"}}},
+		// ONE disposable instance behind TWO interface aliases (keyed, so that they do not collide with r8/r9)
+		{ID: 10, Life: "singleton", Err: true, Outs: []kit.Out{{T: "D2"}}, As: []string{"IA", "IB"}, Name: "ks"},
+		{ID: 11, Life: "scoped", Err: true, Outs: []kit.Out{{T: "D3"}}, As: []string{"IA", "IB"}, Name: "kc"},
+		{ID: 12, Life: "transient", Err: true, Outs: []kit.Out{{T: "D4"}}, As: []string{"IA", "IB"}, Name: "kt"},
 	}}
 	if withInit {
 		s.Regs = append(s.Regs,
@@ -40,6 +44,9 @@ func dispSpec(withInit bool) kit.Spec {
 }
 
 var dispProbes = []Op{{Kind: "get", T: "D2"}, {Kind: "get", T: "D3"}, {Kind: "get", T: "D5"}, {Kind: "get", T: "IB"}, {Kind: "get", T: "IA"}, {Kind: "get", T: "D1"}}
+
+// aliased disposables: one instance reachable under two interface identities
+var dispAliasProbes = []Op{{Kind: "get", T: "IA", Key: "kc"}, {Kind: "get", T: "IB", Key: "kc"}, {Kind: "get", T: "IA", Key: "kt"}, {Kind: "get", T: "IB", Key: "kt"}, {Kind: "get", T: "IB", Key: "ks"}, {Kind: "get", T: "D2"}}
 
 func dispFilter(prop string, fs []Finding) []Finding {
 	var out []Finding
@@ -85,6 +92,7 @@ func dispHistCfgs(prop, tier string) []*histCfg {
 	var out []*histCfg
 	out = append(out,
 		&histCfg{Name: prop + "-hist/plain", Spec: dispSpec(false), Probes: dispProbes, MaxScopes: 3, Depth: depth, CtxKinds: []string{"cancel"}, Final: dispFinal, Oracle: dispOracle(prop)},
+		&histCfg{Name: prop + "-hist/aliased", Spec: dispSpec(false), Probes: dispAliasProbes, MaxScopes: 2, Depth: depth, CtxKinds: []string{""}, Final: dispFinal, Oracle: dispOracle(prop)},
 		&histCfg{Name: prop + "-hist/init", Spec: dispSpec(true), Probes: dispProbes[:4], MaxScopes: 3, Depth: depth - 1, CtxKinds: []string{""}, Final: dispFinal, Oracle: dispOracle(prop)},
 	)
 	// scope churn: many children under one parent, created and closed in every order
@@ -205,6 +213,8 @@ func c12Spec() kit.Spec {
 		{ID: 1, Life: "singleton", Outs: []kit.Out{{T: "D1"}}, Deps: []kit.Dep{{T: "D0"}}},
 		{ID: 2, Life: "scoped", Outs: []kit.Out{{T: "D2"}}, Deps: []kit.Dep{{T: "D1"}}},
 		{ID: 3, Life: "transient", Outs: []kit.Out{{T: "D3"}}, Deps: []kit.Dep{{T: "D0"}}},
+		// one disposable singleton behind two interface aliases
+		{ID: 4, Life: "singleton", Outs: []kit.Out{{T: "D4"}}, As: []string{"IA", "IB"}},
 	}}
 }
 
@@ -237,7 +247,7 @@ func reachable(err error, out map[*kit.InjErr]bool) {
 	}
 }
 
-var c12Labels = []string{"r0#1.0", "r1#1.0", "r2#1.0", "r3#1.0", "r2#2.0", "r3#2.0", "r2#3.0", "r3#3.0"}
+var c12Labels = []string{"r4#1.0", "r0#1.0", "r1#1.0", "r2#1.0", "r3#1.0", "r2#2.0", "r3#2.0", "r2#3.0", "r3#3.0"}
 
 func c12Setup() []Op {
 	return []Op{
@@ -459,7 +469,7 @@ func c12Seq(r *mc.Report, firsts []string) {
 	for _, first := range firsts {
 		for skip := 0; skip < 64; skip++ {
 			// labels of the instances that exist under this skip mask: serials are assigned in creation order
-			labels := []string{"r0#1.0", "r1#1.0"}
+			labels := []string{"r0#1.0", "r1#1.0", "r4#1.0"}
 			n2, n3 := 0, 0
 			for gi := 0; gi < 6; gi++ {
 				if skip&(1<<gi) != 0 {
@@ -473,7 +483,7 @@ func c12Seq(r *mc.Report, firsts []string) {
 					labels = append(labels, fmt.Sprintf("r3#%d.0", n3))
 				}
 			}
-			if skip != 0 && len(labels) > 6 {
+			if skip != 0 && len(labels) > 7 {
 				// with few skipped resolutions use single and pair failures only (the full subsets are covered by skip=0)
 				for i := range labels {
 					run(c12Case{Fail: []string{labels[i]}, First: first, Skip: skip})
